@@ -135,6 +135,56 @@ func registerSyncStubs(reg func(string, intrinsic)) {
 			return x.tb.False()
 		})
 	}
+	// sync/atomic on unsafe.Pointer cells (atomic.Pointer[T], sync.Map): pointers compare by identity
+	reg("sync/atomic.LoadPointer", func(x *Exec, fr *frame, args []value) value {
+		p := args[0].(*value)
+		if x.sched != nil {
+			x.sched.syncPoint(x, p, "atomic.Load")
+			x.sched.acquire(x, p)
+		}
+		return *p
+	})
+	reg("sync/atomic.StorePointer", func(x *Exec, fr *frame, args []value) value {
+		p := args[0].(*value)
+		if x.sched != nil {
+			x.sched.syncPoint(x, p, "atomic.Store")
+		}
+		*p = args[1]
+		if x.sched != nil {
+			x.sched.release(x, p)
+		}
+		return nil
+	})
+	reg("sync/atomic.SwapPointer", func(x *Exec, fr *frame, args []value) value {
+		p := args[0].(*value)
+		if x.sched != nil {
+			x.sched.syncPoint(x, p, "atomic.Swap")
+			x.sched.acquire(x, p)
+		}
+		old := *p
+		*p = args[1]
+		if x.sched != nil {
+			x.sched.release(x, p)
+		}
+		return old
+	})
+	reg("sync/atomic.CompareAndSwapPointer", func(x *Exec, fr *frame, args []value) value {
+		p := args[0].(*value)
+		if x.sched != nil {
+			x.sched.syncPoint(x, p, "atomic.CAS")
+			x.sched.acquire(x, p)
+		}
+		cur, _ := (*p).(*value)
+		old, _ := args[1].(*value)
+		if cur == old {
+			*p = args[2]
+			if x.sched != nil {
+				x.sched.release(x, p)
+			}
+			return x.tb.True()
+		}
+		return x.tb.False()
+	})
 	// sync.Pool as a per-pool LIFO free list (one legal behaviour of the real pool; the real one may also
 	// drop items at any time — code that is only correct when items are dropped is not modelled).
 	// A Get/Put is a synchronising access to the pool.
